@@ -38,22 +38,13 @@ def queue_bookkeeping(ctx, RB, RD, RR):
 
     # ---- ownership of the bookkeeping field: whole package
     field = "_last_item"
+    from ..fixtures import FX_WRITE, field_writes, must_fire
+
+    must_fire("C16/bookkeeping-in-critical-section", field_writes, FX_WRITE, field)
     writes = []
     for m in P.modules.values():
-        for fi in m.classes.values():
-            for mname, mf in fi.methods.items():
-                for n in ast.walk(mf.node):
-                    tgts = n.targets if isinstance(n, ast.Assign) else [n.target] if isinstance(n, (ast.AugAssign, ast.AnnAssign)) else n.targets if isinstance(n, ast.Delete) else []
-                    for t in tgts:
-                        for x in ast.walk(t):
-                            if isinstance(x, ast.Attribute) and x.attr == field and isinstance(x.ctx, (ast.Store, ast.Del)):
-                                writes.append((fi.name, mname, norm_stmt(n), f"{m.relpath}:{n.lineno}"))
-                    if isinstance(n, ast.Call) and isinstance(n.func, ast.Name) and n.func.id in ("setattr", "delattr") and len(n.args) >= 2 and isinstance(n.args[1], ast.Constant) and n.args[1].value == field:
-                        writes.append((fi.name, mname, norm_stmt(n), f"{m.relpath}:{n.lineno}"))
-        for fname, ff in m.functions.items():
-            for n in ast.walk(ff.node):
-                if isinstance(n, ast.Attribute) and n.attr == field and isinstance(n.ctx, (ast.Store, ast.Del)):
-                    writes.append(("<module>", fname, norm_stmt(n), f"{m.relpath}:{n.lineno}"))
+        for cname, mname, n in field_writes(m.tree, field):
+            writes.append((cname or "<module>", mname, norm_stmt(n), f"{m.relpath}:{n.lineno}"))
     if not writes:
         raise AnalysisError("anchor vanished: no write of _last_item anywhere")
     for c, mname, stmt, loc in writes:
